@@ -1,6 +1,7 @@
 import Model.Tensor
 import Proofs.Zip
 import Proofs.TensorWf
+import Proofs.MeanG
 
 /-!
 # C15 — element-wise tensor arithmetic is exact, rank-generic and shape-checked
@@ -131,8 +132,7 @@ theorem clampRaw_in_interval (x lo hi : α) (irr : ∀ a : α, lt a a = false) (
 theorem clampRaw_id (x lo hi : α) (h1 : lt x lo = false) (h2 : lt hi x = false) : clampRaw x lo hi = x := by
   simp [clampRaw, h1, h2]
 
-/-! ### mean over `k + 1` tensors (rank 1 proved; higher ranks have the same per-element definition
-`meanElem` by construction of `mean2/3/4`, which apply `mean1` row by row) -/
+/-! ### mean over `k + 1` tensors -/
 
 theorem heads_spec (os : List (V1 α)) (h : ∀ o ∈ os, o ≠ []) :
     heads os = some (os.map (fun o => o.getD 0 0)) := by
@@ -208,6 +208,107 @@ theorem mean_spec_rank1 (d : V1 α) (others : List (V1 α)) (hk : others ≠ [])
     simp only [mean, hall, if_true, meanCore, List.length_cons, List.length_map] at hm ⊢
     rw [e3']
     simp only [hm]
+
+/-! ### ranks 2, 3 and 4: the same element formula (`Proofs/MeanG.lean`: the n-ary zip, level by level) -/
+
+/-- `mean_inplace` at rank 2: result `[i][j] = (self[i][j] + Σ_o o[i][j]) / (k+1)`, shape unchanged -/
+theorem mean_spec_rank2 (d : V2 α) (others : List (V2 α)) (hh ww : Nat) (hk : others ≠ [])
+    (hd : L.Dims2 d hh ww) (ho : ∀ o ∈ others, L.Dims2 o hh ww) :
+    (⟨.double hh ww, .double d⟩ : Tensor α).mean (others.map (fun o => ⟨.double hh ww, .double o⟩)) =
+      .ok ⟨.double hh ww, .double (MeanG.spec2 (fun v hs => meanElem v hs (ofNat' (others.length + 1))) d others)⟩ := by
+  have e3 : ∀ (os : List (V2 α)), L.mapM' asDouble
+      (os.map (fun o => (⟨.double hh ww, .double o⟩ : Tensor α))) = .ok os := by
+    intro os
+    induction os with
+    | nil => rfl
+    | cons o os ih => simp [L.mapM', ih, asDouble]
+  cases others with
+  | nil => exact absurd rfl hk
+  | cons o os =>
+    have hall : ((o :: os).map (fun o => (⟨.double hh ww, .double o⟩ : Tensor α))).all
+        (fun t => t.shape == Shape.double hh ww) = true := by
+      simp only [List.all_map, List.all_eq_true]
+      intro x _
+      simp
+    have hm := MeanG.nzip2_spec (fun v hs => meanElem v hs (ofNat' ((o :: os).length + 1))) d (o :: os) hh ww hd ho
+    have e3' := e3 (o :: os)
+    simp only [List.map_cons] at hall e3' ⊢
+    simp only [mean, hall, if_true, meanCore, mean2, List.length_cons, List.length_map] at hm ⊢
+    rw [e3']
+    simp only [hm]
+
+/-- rank 3 -/
+theorem mean_spec_rank3 (d : V3 α) (others : List (V3 α)) (c hh ww : Nat) (hk : others ≠ [])
+    (hd : L.Dims3 d c hh ww) (ho : ∀ o ∈ others, L.Dims3 o c hh ww) :
+    (⟨.triple c hh ww, .triple d⟩ : Tensor α).mean (others.map (fun o => ⟨.triple c hh ww, .triple o⟩)) =
+      .ok ⟨.triple c hh ww, .triple (MeanG.spec3 (fun v hs => meanElem v hs (ofNat' (others.length + 1))) d others)⟩ := by
+  have e3 : ∀ (os : List (V3 α)), L.mapM' asTriple
+      (os.map (fun o => (⟨.triple c hh ww, .triple o⟩ : Tensor α))) = .ok os := by
+    intro os
+    induction os with
+    | nil => rfl
+    | cons o os ih => simp [L.mapM', ih, asTriple]
+  cases others with
+  | nil => exact absurd rfl hk
+  | cons o os =>
+    have hall : ((o :: os).map (fun o => (⟨.triple c hh ww, .triple o⟩ : Tensor α))).all
+        (fun t => t.shape == Shape.triple c hh ww) = true := by
+      simp only [List.all_map, List.all_eq_true]
+      intro x _
+      simp
+    have hm := MeanG.nzip3_spec (fun v hs => meanElem v hs (ofNat' ((o :: os).length + 1))) d (o :: os) c hh ww hd ho
+    have e3' := e3 (o :: os)
+    simp only [List.map_cons] at hall e3' ⊢
+    simp only [mean, hall, if_true, meanCore, mean3, List.length_cons, List.length_map] at hm ⊢
+    rw [e3']
+    simp only [hm]
+
+/-- rank 4 -/
+theorem mean_spec_rank4 (d : V4 α) (others : List (V4 α)) (k c hh ww : Nat) (hk : others ≠ [])
+    (hd : L.Dims4 d k c hh ww) (ho : ∀ o ∈ others, L.Dims4 o k c hh ww) :
+    (⟨.quadruple k c hh ww, .quadruple d⟩ : Tensor α).mean (others.map (fun o => ⟨.quadruple k c hh ww, .quadruple o⟩)) =
+      .ok ⟨.quadruple k c hh ww, .quadruple (MeanG.spec4 (fun v hs => meanElem v hs (ofNat' (others.length + 1))) d others)⟩ := by
+  have e3 : ∀ (os : List (V4 α)), L.mapM' asQuadruple
+      (os.map (fun o => (⟨.quadruple k c hh ww, .quadruple o⟩ : Tensor α))) = .ok os := by
+    intro os
+    induction os with
+    | nil => rfl
+    | cons o os ih => simp [L.mapM', ih, asQuadruple]
+  cases others with
+  | nil => exact absurd rfl hk
+  | cons o os =>
+    have hall : ((o :: os).map (fun o => (⟨.quadruple k c hh ww, .quadruple o⟩ : Tensor α))).all
+        (fun t => t.shape == Shape.quadruple k c hh ww) = true := by
+      simp only [List.all_map, List.all_eq_true]
+      intro x _
+      simp
+    have hm := MeanG.nzip4_spec (fun v hs => meanElem v hs (ofNat' ((o :: os).length + 1))) d (o :: os) k c hh ww hd ho
+    have e3' := e3 (o :: os)
+    simp only [List.map_cons] at hall e3' ⊢
+    simp only [mean, hall, if_true, meanCore, mean4, List.length_cons, List.length_map] at hm ⊢
+    rw [e3']
+    simp only [hm]
+
+/-- … where position `(b, a, i, j)` of `spec4` (and likewise `spec2`, `spec3`) is the mean of the
+    operands' entries at that position -/
+theorem mean_element_rank4 (n : α) (self : V4 α) (others : List (V4 α)) (k c hh ww b a i j : Nat)
+    (hs : L.Dims4 self k c hh ww) (hb : b < k) (ha : a < c) (hi : i < hh) (hj : j < ww) :
+    ((((MeanG.spec4 (fun v hs => meanElem v hs n) self others).getD b []).getD a []).getD i []).getD j 0 =
+      meanElem ((((self.getD b []).getD a []).getD i []).getD j 0)
+        (others.map (fun o => (((o.getD b []).getD a []).getD i []).getD j 0)) n :=
+  MeanG.spec4_get _ self others k c hh ww b a i j hs hb ha hi hj
+
+theorem mean_element_rank3 (n : α) (self : V3 α) (others : List (V3 α)) (c hh ww a i j : Nat)
+    (hs : L.Dims3 self c hh ww) (ha : a < c) (hi : i < hh) (hj : j < ww) :
+    (((MeanG.spec3 (fun v hs => meanElem v hs n) self others).getD a []).getD i []).getD j 0 =
+      meanElem (((self.getD a []).getD i []).getD j 0) (others.map (fun o => ((o.getD a []).getD i []).getD j 0)) n :=
+  MeanG.spec3_get _ self others c hh ww a i j hs ha hi hj
+
+theorem mean_element_rank2 (n : α) (self : V2 α) (others : List (V2 α)) (hh ww i j : Nat)
+    (hs : L.Dims2 self hh ww) (hi : i < hh) (hj : j < ww) :
+    ((MeanG.spec2 (fun v hs => meanElem v hs n) self others).getD i []).getD j 0 =
+      meanElem ((self.getD i []).getD j 0) (others.map (fun o => (o.getD i []).getD j 0)) n :=
+  MeanG.spec2_get _ self others hh ww i j hs hi hj
 
 /-- shape-mismatched operands are refused; so is an empty operand list -/
 theorem mean_rejects_mismatch (a : Tensor α) (others : List (Tensor α))
